@@ -43,6 +43,7 @@ var (
 	cRegs             = simrt.RegisterCounter("op_register")
 	cR5               = simrt.RegisterCounter("op_lossless_or_error")
 	cR5Wild           = simrt.RegisterCounter("probe_r5_out_of_range_value")
+	cEncFOpts         = simrt.RegisterCounter("op_frame_roundtrip_with_encrypted_fopts")
 	cWildFrame        = simrt.RegisterCounter("op_frame_with_possibly_out_of_range_command")
 	cWildFrameRefused = simrt.RegisterCounter("probe_frame_with_out_of_range_command_refused")
 	cR5Rejected       = simrt.RegisterCounter("probe_r5_encoder_rejected")
@@ -449,7 +450,20 @@ func frameRoundTrip(h *history, id int, r *sim.Rand, up bool) {
 	f := spec.GenFrame(r, up, [4]byte{1, 2, 3, byte(id)}, uint32(r.Intn(1<<16)), g, 242)
 	phy := f.ToLib()
 	hasCmds := len(f.FOpts) > 0 || len(f.FRMCmds) > 0
-	b, err := phy.MarshalBinary()
+	// half of the frames with FOpts travel the LoRaWAN 1.1 way: FOpts
+	// encrypted by the sender, decrypted by the receiver before decoding
+	encFOpts := len(f.FOpts) > 0 && r.Intn(2) == 0
+	var encKey lorawan.AES128Key
+	r.Fill(encKey[:])
+	var err error
+	if encFOpts {
+		simrt.Count(cEncFOpts)
+		err = phy.EncryptFOpts(encKey)
+	}
+	var b []byte
+	if err == nil {
+		b, err = phy.MarshalBinary()
+	}
 	if err != nil {
 		// a frame that carries a valid command sequence must encode; a frame
 		// without commands that fails to encode is another property's matter
@@ -477,6 +491,12 @@ func frameRoundTrip(h *history, id int, r *sim.Rand, up bool) {
 	if !okMP {
 		simrt.Count(cNotJudged)
 		return
+	}
+	if encFOpts {
+		if err := rx.EncryptFOpts(encKey); err != nil { // the key stream is an involution
+			simrt.Count(cNotJudged)
+			return
+		}
 	}
 	simrt.Count(cPipes)
 	rawOf := func(pls []lorawan.Payload) ([]byte, bool) {
